@@ -47,6 +47,7 @@ SOURCES = [
     "SqlframeModel/Props/C12.lean",
     "SqlframeModel/Lemmas/C12.lean",
     "SqlframeModel/Impl/C12Names.lean",
+    "SqlframeModel/Impl/C12Round.lean",
 ]
 
 ENGINES = ["bigquery", "snowflake", "postgres", "databricks", "spark", "redshift", "duckdb"]
@@ -148,6 +149,7 @@ def reset_singleton() -> None:
     _BaseSession._instance = None  # type: ignore
 
 
+CASE_KEEPING_DIALECTS = ("postgres", "snowflake")  # compared with the live NORMALIZATION_STRATEGY in `exercise`
 SETUP_PREFIXES = ("CREATE EXTENSION", "CREATE OR REPLACE FUNCTION pg_temp.")
 
 
@@ -186,12 +188,50 @@ class Interp:
             out["fail"] = f"re-rendering the parse is not a fixed point in {dialect}: {norm[:200]!r} vs {again[:200]!r}"
             return out
         out["is_own_normal_form"] = norm == text
+        # every column reference must resolve under the dialect's OWN identifier rules.  DuckDB (the executor below) folds
+        # quoted names too, so a reference spelled differently from its quoted definition would go unnoticed there; for the
+        # dialects that keep quoted identifiers as written (sqlglot strategy LOWERCASE / UPPERCASE: Postgres, Snowflake)
+        # sqlglot's qualifier is run under that dialect.
+        qualified = None
+        if dialect in CASE_KEEPING_DIALECTS:
+            try:
+                from sqlglot.optimizer.qualify import qualify
+
+                qualified = qualify(tree.copy(), dialect=dialect, validate_qualify_columns=True, quote_identifiers=False)
+            except Exception as e:  # noqa  (sqlglot.errors.OptimizeError)
+                out["fail"] = f"a column reference does not resolve under {dialect}'s identifier rules (quoted identifiers keep their spelling there): {type(e).__name__}: {str(e)[:160]}"
+                return out
         # oracle adaptation: Redshift's VARCHAR(MAX) is an unbounded string; sqlglot writes it as TEXT(MAX) for DuckDB, which
         # DuckDB cannot read.  The *meaning* (unbounded text) is kept by dropping the modifier.
         back_tree = tree.copy()
         for dt in back_tree.find_all(exp.DataType):
             if any(isinstance(p, exp.DataTypeParam) and p.name.upper() == "MAX" for p in dt.expressions):
                 dt.set("expressions", None)
+        # ASSUMED engine primitives (Impl/C12Names.lean `primRound`): Postgres' round(double precision) rounds ties to even,
+        # round(numeric) away from zero, and round(double precision, integer) does not exist; the other engines' ROUND is
+        # half away from zero like DuckDB's.
+        if dialect == "postgres" and any(True for _ in tree.find_all(exp.Round)):
+            try:
+                from sqlglot.optimizer.annotate_types import annotate_types
+                from sqlglot.optimizer.qualify import qualify
+
+                typed = annotate_types(qualified.copy() if qualified is not None else qualify(tree.copy(), dialect=dialect, quote_identifiers=False), dialect=dialect)
+                for dt in typed.find_all(exp.DataType):
+                    if any(isinstance(p, exp.DataTypeParam) and p.name.upper() == "MAX" for p in dt.expressions):
+                        dt.set("expressions", None)
+                for node in list(typed.find_all(exp.Round)):
+                    if node.this.is_type(exp.DataType.Type.DOUBLE, exp.DataType.Type.FLOAT):
+                        if node.args.get("decimals") is None:
+                            node.replace(exp.Anonymous(this="ROUND_EVEN", expressions=[node.this.copy(), exp.Literal.number(0)]))
+                        else:
+                            out["fail"] = "Postgres has no round(double precision, integer): the operand of a ROUND with a scale must be NUMERIC"
+                            return out
+                back_tree = typed
+                out["postgres_round_primitives"] = True
+            except Exception as e:  # noqa
+                out["fail"] = f"cannot type the postgres text to apply Postgres' round() primitives: {type(e).__name__}: {str(e)[:160]}"
+                out["oracle"] = True
+                return out
         try:
             back = back_tree.sql(dialect="duckdb")
         except Exception as e:  # noqa
@@ -350,13 +390,26 @@ def _kv_table(rng: random.Random, second: str) -> t.List[t.List[t.Any]]:
     return rows
 
 
+SOURCE_NAME_POOL = ["Order Id", "Amt", "an tan", "Unit-Price", "k", "QTY", "my Col", "X", "Total Amount", "a b C"]
+ROUND_TIES = [0.5, 1.5, 2.5, -2.5, 2.4, 4.5, -0.5, 3.0, None, 6.5, -1.5]
+ROUND_SCALED = [0.25, 0.75, 1.25, -0.25, 2.4, None, 0.125, 3.0]
+
+
 ALIAS_POOL = ["MyCol", "my col", "ABC", "a_b", "X1", "select", "Order", "K2", "ünï", "1x", "q", "Total Amount"]  # no dots (col("a.b") is a qualified reference), no parentheses (user-chosen names are the user's)
 
 
 def gen_extra(rng: random.Random) -> dict:
-    fam = rng.choice(["join", "join", "setop", "group", "group", "window", "alias"])
+    fam = rng.choice(["join", "join", "setop", "group", "group", "window", "alias", "srcnames", "fn"])
     a = _kv_table(rng, "v")
     b = _kv_table(rng, "w")
+    if fam == "srcnames":
+        n1, n2 = rng.sample(SOURCE_NAME_POOL, 2)
+        rows = [[rng.choice([1, 2, 3]), rng.choice([0, 5, 10, 20])] for _ in range(rng.randint(1, 4))]
+        return {"fam": "srcnames", "names": [n1, n2], "rows": rows, "then": rng.choice(["plain", "filter", "sorted", "sorted", "full", "group"])}
+    if fam == "fn":
+        scale = rng.choice([None, None, 0, 1])
+        pool = ROUND_TIES if not scale else ROUND_SCALED
+        return {"fam": "fn", "fn": "round", "scale": scale, "xs": rng.sample(pool, rng.randint(2, 6)), "arg": rng.choice(["name", "col"])}
     if fam == "alias":
         n1, n2 = rng.sample(ALIAS_POOL, 2)
         return {"fam": "alias", "a": a, "names": [n1, n2], "then": rng.choice([None, "where", "distinct", "group"])}
@@ -381,6 +434,12 @@ FIXED_EXTRA: t.List[dict] = [
     {"fam": "window", "a": [[1, 3], [1, 1], [2, 5], [1, 2]], "fn": "sum", "part": True, "desc": True, "frame": "rows"},
     {"fam": "alias", "a": [[1, 2], [None, 3], [1, 2]], "names": ["MyCol", "Total Amount"], "then": "where"},
     {"fam": "alias", "a": [[1, 2], [None, 3], [2, 0]], "names": ["select", "1x"], "then": "group"},
+    {"fam": "srcnames", "names": ["Order Id", "Amt"], "rows": [[1, 10], [2, 20]], "then": "sorted"},
+    {"fam": "srcnames", "names": ["Order Id", "Amt"], "rows": [[1, 10], [2, 20]], "then": "full"},
+    {"fam": "srcnames", "names": ["my Col", "QTY"], "rows": [[1, 10], [1, 0], [2, 5]], "then": "group"},
+    {"fam": "fn", "fn": "round", "scale": None, "xs": [0.5, 1.5, 2.5, -2.5, 2.4, 4.5], "arg": "name"},
+    {"fam": "fn", "fn": "round", "scale": 1, "xs": [0.25, 0.75, -0.25, 2.4, None], "arg": "col"},
+    {"fam": "fn", "fn": "round", "scale": 0, "xs": [0.5, 2.5, -2.5], "arg": "col"},
 ]
 
 
@@ -436,6 +495,26 @@ def build(p: dict, session: t.Any, F: t.Any, W: t.Any) -> t.Any:
             first = f"{p['fns'][0]}_{target}"
             out = out.where(F.col(first).isNotNull())
         return out
+    if fam == "srcnames":
+        # createDataFrame column names that need quoting and/or carry upper case, referred to by name afterwards
+        n1, n2 = p["names"]
+        df = session.createDataFrame([tuple(r) for r in p["rows"]], [n1, n2])
+        th = p["then"]
+        if th == "plain":
+            return df.select(n1, n2)
+        if th == "filter":
+            return df.filter(F.col(n2) >= F.lit(5)).select(n1)
+        if th == "group":
+            return df.groupBy(n1).agg(F.max(F.col(n2)).alias("m"))
+        if th == "sorted":
+            return df.filter(F.col(n2) > F.lit(1)).select(n1, (F.col(n2) * F.lit(2)).alias("Dbl " + n2)).orderBy(n1)
+        return df.filter(F.col(n2) > F.lit(1)).select(n1, (F.col(n2) * F.lit(2)).alias("Dbl " + n2)).orderBy(n1, "Dbl " + n2)
+    if fam == "fn":
+        # an engine-supported function where sqlframe's own per-engine decision matters
+        df = session.createDataFrame([(i, x) for i, x in enumerate(p["xs"])], schema="id bigint, x double")
+        arg = "x" if p["arg"] == "name" else F.col("x")
+        c = F.round(arg) if p["scale"] is None else F.round(arg, p["scale"])
+        return df.select("id", c.alias("r"))
     if fam == "alias":
         A = _df2(session, p["a"], "v")
         n1, n2 = p["names"]
@@ -476,6 +555,10 @@ def show_prog(p: dict) -> str:
         return f"A[k,v]{p['a']}.{p['op']}(B[k,v]{p['b']}){'.distinct()' if p.get('distinct_after') else ''}"
     if fam == "group":
         return f"A[k,v]{p['a']}.groupBy({p['keys']}).{p['style']}({p['fns']}){'.where(notnull)' if p.get('having') else ''}"
+    if fam == "srcnames":
+        return f"createDataFrame({p['rows']}, {p['names']}).{p['then']}(..)"
+    if fam == "fn":
+        return f"createDataFrame(enumerate({p['xs']}), 'id bigint, x double').select(id, round({'x' if p['arg'] == 'name' else 'col(x)'}{'' if p['scale'] is None else ', ' + str(p['scale'])}).alias('r'))"
     if fam == "alias":
         return f"A[k,v]{p['a']}.select(k.alias({p['names'][0]!r}), (v+1).alias({p['names'][1]!r})){'.' + p['then'] + '(..)' if p['then'] else ''}"
     return f"A[k,v]{p['a']}.select(k, v, {p['fn']}().over({'partitionBy(k).' if p['part'] else ''}orderBy(v {'desc' if p['desc'] else 'asc'}, k){', ' + p['frame'] if p['frame'] else ''}))"
@@ -767,7 +850,56 @@ def shape_rules() -> t.Dict[str, t.Callable[[dict, str], bool]]:
             and any(f.startswith(f"[{e}-session.collect()]") or f.startswith(f"[duckdb-session.sql(dialect={e})]") for e in ("bigquery", "snowflake", "redshift"))
         )
 
-    return {"H_setOpAllUnsupported": setop_all}
+    def order_keys_and_defs(p: dict) -> t.Tuple[t.Set[str], t.Set[str]]:
+        """(names used as bare orderBy keys, names some step defines as a select alias) — display spelling"""
+        keys: t.Set[str] = set()
+        defs: t.Set[str] = set()
+        fam = p.get("fam")
+        if fam == "chain":
+            for st in p["steps"]:
+                k = st["k"]
+                if k == "orderBy":
+                    keys |= {x["name"] for x in st["keys"]}
+                elif k == "select":
+                    defs |= {n for n, e in st["items"] if c01.tuple_(e) != ("col", n)}
+                elif k == "withColumn":
+                    defs.add(st["n"])
+                elif k == "withColumnRenamed":
+                    defs.add(st["b"])
+                elif k == "toDF":
+                    defs |= set(st["names"])
+        elif fam == "srcnames" and p.get("then") == "full":
+            keys = {p["names"][0], "Dbl " + p["names"][1]}
+            defs = {"Dbl " + p["names"][1]}
+        return keys, defs
+
+    def orderby_display_alias(p: dict, f: str) -> bool:
+        # an ORDER BY key that names a select alias of the same block: the alias is written in the user's display spelling
+        # (`_set_display_names`), the key in the dialect-normalised spelling; Snowflake / Postgres keep quoted spellings apart
+        import re
+
+        m = re.search(r"does not resolve under (snowflake|postgres)'s identifier rules.*Column '\"?([^'\"]+)\"?' could not be resolved", f)
+        if not m:
+            return False
+        dialect, unresolved = m.group(1), m.group(2)
+        if not (f.startswith(f"[{dialect}-session.collect()]") or f.startswith(f"[duckdb-session.sql(dialect={dialect})]")):
+            return False
+        keys, defs = order_keys_and_defs(p)
+        # the unresolved reference is the normalised spelling of an alias that is both defined by a step and used as an
+        # orderBy key, and that spelling differs (in letter case only) from the display spelling the alias is written in
+        return any(n.lower() == unresolved.lower() and n != unresolved for n in keys & defs)
+
+    def sql_other_dialect_functions(p: dict, f: str) -> bool:
+        # df.sql(dialect='postgres') on a session of ANOTHER engine keeps that session's function decisions: round() gets no
+        # NUMERIC cast, so the Postgres text uses round(double precision) (ties to even) / round(double precision, int) (absent)
+        return (
+            p.get("fam") == "fn"
+            and p.get("fn") == "round"
+            and f.startswith("[duckdb-session.sql(dialect=postgres)]")
+            and (("rows differ" in f and p.get("scale") is None) or ("Postgres has no round(double precision, integer)" in f and p.get("scale") is not None))
+        )
+
+    return {"H_setOpAllUnsupported": setop_all, "H_orderByDisplayAlias": orderby_display_alias, "H_sqlDialectKeepsSessionFunctions": sql_other_dialect_functions}
 
 
 def classify(p: dict, fails: t.List[str], known: t.Dict[str, dict]) -> t.Optional[t.List[str]]:
@@ -935,6 +1067,33 @@ def config_failures_of(live: t.Dict[str, dict]) -> t.List[dict]:
     return failures
 
 
+def live_round() -> t.Dict[str, t.Any]:
+    """what the running functions.round builds on each engine session, and DuckDB's two rounding primitives on k/2"""
+    from sqlglot import exp
+
+    out: t.Dict[str, t.Any] = {"operand": {}, "prims": {}}
+    for e in ENGINES:
+        try:
+            s, _ = make_session(e)
+            F, _W = engine_api(e)
+            kinds = []
+            for c in (F.round(F.col("x")), F.round(F.col("x"), 1)):
+                r = c.expression.find(exp.Round)
+                inner = r.this if r is not None else None
+                kinds.append("numeric" if isinstance(inner, exp.Cast) and inner.to.is_type(exp.DataType.Type.DECIMAL) else "double")
+            out["operand"][e] = kinds
+        except Exception as ex:  # noqa
+            out["operand"][e] = f"{type(ex).__name__}: {str(ex)[:120]}"
+    reset_singleton()
+    import duckdb
+
+    con = duckdb.connect(":memory:")
+    for h in range(-13, 14):
+        a, ev = con.execute(f"SELECT ROUND(CAST({h} AS DOUBLE) / 2), ROUND_EVEN(CAST({h} AS DOUBLE) / 2, 0)").fetchone()
+        out["prims"][h] = [int(a), int(ev)]
+    return out
+
+
 def exercise(ctx: Ctx) -> t.Tuple[t.List[dict], dict]:
     """returns (configuration failures = concrete failing inputs, statistics); model/translator disagreements go to ctx.broken"""
     stats = {"table_cells": 0, "sanitize_strings": 0, "ident_cases": 0, "name_cases": 0}
@@ -949,7 +1108,9 @@ def exercise(ctx: Ctx) -> t.Tuple[t.List[dict], dict]:
     strings = ADVERSARIAL + extra
     idents = live_idents()
     names = live_names()
-    cases: t.List[dict] = [{"kind": "table"}] + [{"kind": "sanitize", "s": s} for s in strings] + idents + names
+    lr = live_round()
+    rounds = [{"kind": "round", "engine": e, "h": h} for e in ENGINES for h in range(-13, 14)]
+    cases: t.List[dict] = [{"kind": "table"}] + [{"kind": "sanitize", "s": s} for s in strings] + idents + names + rounds
     try:
         outs = vlib.run_driver("C12", [dict({k: v for k, v in c.items() if not k.startswith("live") and k != "reported"}, case=i) for i, c in enumerate(cases)])
     except Exception as e:  # noqa: the driver does not build when a Gen module is missing
@@ -1050,6 +1211,28 @@ def exercise(ctx: Ctx) -> t.Tuple[t.List[dict], dict]:
             bad += 1
             if bad <= 2:
                 ctx.broken.append("correspondence (names): " + msg)
+    # functions.round: the generated decision vs the expression the running function builds; the Lean primitives vs the oracle's
+    bad = 0
+    for c, o in zip(cases, outs):
+        if c.get("kind") != "round":
+            continue
+        stats["round_cases"] = stats.get("round_cases", 0) + 1
+        e, h = c["engine"], c["h"]
+        msg = None
+        if "err" in o:
+            msg = f"driver: {o['err']}"
+        elif lr["operand"].get(e) != [o["operandNoScale"], o["operandWithScale"]]:
+            msg = f"functions.round on the {e} session hands ROUND a {lr['operand'].get(e)} operand (no scale, with scale); Gen.roundPgCast* says {[o['operandNoScale'], o['operandWithScale']]}"
+        elif lr["prims"][h] != [o["away"], o["even"]]:
+            msg = f"rounding primitives on {h}/2: DuckDB ROUND / ROUND_EVEN give {lr['prims'][h]}, Impl/C12Round halfAway / halfEven give {[o['away'], o['even']]}"
+        if msg:
+            bad += 1
+            if bad <= 2:
+                ctx.broken.append("correspondence (round): " + msg)
+    # the dialects whose quoted identifiers keep their spelling (used by the resolution obligation of the stream)
+    for d, st in table["strategies"].items():
+        if (st in ("LOWERCASE", "UPPERCASE")) != (d in CASE_KEEPING_DIALECTS):
+            ctx.broken.append(f"harness: CASE_KEEPING_DIALECTS disagrees with the strategy table on {d} ({st})")
     stats["gen_table"] = {e: [r["input"], r["output"], r["execution"], r["sanitize"], r["trueFlags"]] for e, r in gen_rows.items()}
     return failures, stats
 
@@ -1195,7 +1378,7 @@ def run(ctx: Ctx) -> None:
         samples.append({"program": show_prog(progs[i])[:300], "bigquery_text": refs[i]["texts"].get("bigquery", "")[:300], "snowflake_sent": (per_prog[i]["sent"].get("snowflake") or [""])[-1][:300]})
     ctx.cov.update(
         {
-            "evaluations": renderings + statements + stats["sanitize_strings"] + stats["ident_cases"] + stats["name_cases"] + stats["table_cells"],
+            "evaluations": renderings + statements + stats["sanitize_strings"] + stats["ident_cases"] + stats["name_cases"] + stats["table_cells"] + stats.get("round_cases", 0),
             "distinct_nontrivial": len(nontrivial),
             "rule": "VALIDATION stream: programs = corpus + fixed join/set-operation/groupBy/window programs + random C01 chains (1-6 steps over 9 step kinds) + random join/setop/groupBy/window programs, "
             "each over small tables with NULLs and duplicates; every program is rendered (a) by df.sql(dialect=E) on a DuckDB session for the 7 engines, (b) by the real engine session class's collect() through a "
